@@ -195,6 +195,31 @@ func moduleObligations(ld *Loaded, specs *SpecDB, prop, repo string) []*ObResult
 		add("C14 C18", scanOb("module/unknown-external", len(unknown) == 0, strings.Join(unknown, "; ")))
 		add("C14 C18", scanOb("module/no-denied-api", len(denied) == 0, "nondeterministic or file-system-writing API reachable: "+strings.Join(denied, "; ")))
 		add("C14", scanOb("module/no-goroutines-or-select", len(goSel) == 0, strings.Join(goSel, "; ")))
+		// a range over a map inside a helper without a contract is executed in place by the verification of
+		// the functions under contract that call it: it is accounted to those
+		callersOf := moduleCallers(ld)
+		var attributed []string
+		var up func(name string, depth int, seen map[string]bool)
+		up = func(name string, depth int, seen map[string]bool) {
+			if i := strings.Index(name, "$"); i >= 0 {
+				name = name[:i]
+			}
+			if seen[name] {
+				return
+			}
+			seen[name] = true
+			if specs.Lookup(name) != nil || depth > 5 || len(callersOf[name]) == 0 {
+				attributed = append(attributed, name)
+				return
+			}
+			for c := range callersOf[name] {
+				up(c, depth+1, seen)
+			}
+		}
+		for _, n := range mapRanges {
+			up(n, 0, map[string]bool{})
+		}
+		mapRanges = attributed
 		sort.Strings(mapRanges)
 		wantRanges := []string{"registry.MethodScope.resolveImportVarConflicts", "registry.Registry.Imports", "registry.Registry.searchImport"}
 		add("C14", scanOb("module/map-ranges-accounted", strings.Join(mapRanges, ",") == strings.Join(wantRanges, ","),
@@ -252,6 +277,13 @@ func moduleObligations(ld *Loaded, specs *SpecDB, prop, repo string) []*ObResult
 			return out
 		}
 		tree := trees["moq"]
+		// the text patterns below are matched on the template with the spelling of its actions normalised
+		// ({{ .Name }}, {{- .Name -}} and {{.Name}} are the same action; "a|b" and "a | b" the same pipeline)
+		raw := text
+		text = regexp.MustCompile(`\{\{-?[ \t]*`).ReplaceAllString(text, "{{")
+		text = regexp.MustCompile(`[ \t]*-?\}\}`).ReplaceAllString(text, "}}")
+		text = regexp.MustCompile(`(\{\{[^}]*?)[ \t]*\|[ \t]*`).ReplaceAllString(text, "$1 | ")
+		_ = raw
 		var ranges, ifs, actions []string
 		walkTemplate(tree.Root, &ranges, &ifs, &actions)
 		// sub-templates ({{define}}): their ranges and conditions count like those of the main template, with
@@ -352,7 +384,7 @@ func moduleObligations(ld *Loaded, specs *SpecDB, prop, repo string) []*ObResult
 		sort.Strings(badIdent)
 		add("C02 C03 C04 C08", tplOb("template/method-identifiers-verbatim", len(badIdent) == 0,
 			"method, function-field, accessor, reset, lock and record-list identifiers are the method name unmodified: "+strings.Join(badIdent, "; ")))
-		add("C20", tplOb("template/one-type-per-mock", strings.Count(text, "\ntype {{.MockName}}") == 1 && strings.Contains(text, "{{range $i, $mock := .Mocks -}}"),
+		add("C20", tplOb("template/one-type-per-mock", strings.Count(text, "\ntype {{.MockName}}") == 1 && strings.Contains(text, "{{range $i, $mock := .Mocks}}"),
 			"one struct declaration per element of .Mocks, in order"))
 	}
 	return out
